@@ -56,6 +56,26 @@ Proof. intro l. reflexivity. Qed.
 Lemma elem_bytes_ok_alt : forall l, elem_bytes_ok (EAlt l) = list_bytes_ok l.
 Proof. intro l. reflexivity. Qed.
 
+Lemma takeZ_firstn : forall z d, takeZ z d = firstn (Z.to_nat z) d.
+Proof.
+  intros z d. unfold takeZ, lenZ. destruct (Z_le_gt_dec z (Z.of_nat (length d))) as [H|H].
+  - rewrite Z.min_l by lia. reflexivity.
+  - rewrite Z.min_r by lia. rewrite Nat2Z.id. rewrite firstn_all. symmetry. apply firstn_all2. lia.
+Qed.
+Lemma dropZ_skipn : forall z d, dropZ z d = skipn (Z.to_nat z) d.
+Proof.
+  intros z d. unfold dropZ, lenZ. destruct (Z_le_gt_dec z (Z.of_nat (length d))) as [H|H].
+  - rewrite Z.min_l by lia. reflexivity.
+  - rewrite Z.min_r by lia. rewrite Nat2Z.id. rewrite skipn_all. symmetry. apply skipn_all2. lia.
+Qed.
+Lemma whole_nat : forall vs (body : list Z), (vs <=? lenZ body) = (Z.to_nat vs <=? length body)%nat.
+Proof.
+  intros vs body. unfold lenZ. destruct (Z.leb_spec vs (Z.of_nat (length body))); symmetry;
+    [apply Nat.leb_le|apply Nat.leb_gt]; lia.
+Qed.
+Lemma consumed_nat : forall hs vs, Z.to_nat (1 + Z.of_nat hs + Z.max 0 vs) = S (hs + Z.to_nat vs).
+Proof. intros. lia. Qed.
+
 (* parse_next on a container, with the list loop as the top-level [parse_list] *)
 Lemma parse_next_unfold : forall k depth b d1,
   parse_next (S k) depth (b :: d1) =
@@ -67,8 +87,8 @@ Lemma parse_next_unfold : forall k depth b d1,
   | Some (hs, vs) =>
       let body := skipn hs d1 in
       let n := Z.to_nat vs in
-      let consumed := S (hs + n) in
-      let raw := firstn consumed d in
+      let consumed := 1 + Z.of_nat hs + Z.max 0 vs in
+      let raw := firstn (S (hs + n)) d in
       let value := firstn n body in
       let whole := (n <=? length body)%nat in
       if ty =? 0 then POk ENil consumed raw ((idx =? 0))
@@ -105,6 +125,7 @@ Lemma parse_next_unfold : forall k depth b d1,
 Proof.
   intros k depth b d1. cbn [parse_next]. cbv zeta.
   destruct (size_of_header (Z.shiftr b 3) (Z.land b 7) d1) as [[hs vs]|]; [|reflexivity].
+  rewrite !takeZ_firstn, !whole_nat, !consumed_nat.
   destruct (Z.shiftr b 3 =? 0); [reflexivity|].
   destruct (Z.shiftr b 3 =? 1); [reflexivity|].
   destruct (Z.shiftr b 3 =? 2); [reflexivity|].
@@ -205,10 +226,17 @@ Proof.
 Qed.
 
 (* parsing a variable-length leaf (TEXT_STRING, URL) that was just encoded *)
+Lemma lenZ_to_nat : forall (A : Type) (l : list A), Z.to_nat (lenZ l) = length l.
+Proof. intros. unfold lenZ. apply Nat2Z.id. Qed.
+
+Lemma consumed_lenZ : forall (h : Z) (sz data : list Z),
+  1 + Z.of_nat (length sz) + Z.max 0 (lenZ data) = lenZ (h :: sz ++ data).
+Proof. intros. unfold lenZ. cbn [length]. rewrite app_length. lia. Qed.
+
 Lemma parse_var_leaf : forall ty data b tail k depth mk,
   var_header ty data = Some b -> (ty = 4 \/ ty = 8) ->
   mk = (if ty =? 4 then EText data else EUrl data) ->
-  parse_next (S k) depth (b ++ tail) = POk mk (length b) b true.
+  parse_next (S k) depth (b ++ tail) = POk mk (lenZ b) b true.
 Proof.
   intros ty data b tail k depth mk H Hty Hmk.
   destruct (var_header_shape ty data b tail H) as [idx [sz [Hb [Hidx [Hsz [Hsoh Hcan]]]]]].
@@ -216,16 +244,14 @@ Proof.
   subst b. cbn [app]. rewrite <- app_assoc. rewrite parse_next_unfold. cbv zeta.
   rewrite Hh2, Hh3, Hsoh.
   rewrite (skipn_len_app _ sz (data ++ tail) (length sz) eq_refl).
-  unfold lenZ. rewrite Nat2Z.id.
+  rewrite !lenZ_to_nat.
   rewrite (firstn_len_app _ data tail (length data) eq_refl).
-  rewrite leb_len_app. fold (lenZ data). rewrite Hcan. cbn [andb].
+  rewrite leb_len_app. rewrite Hcan. cbn [andb].
   assert (Hraw : firstn (S (length sz + length data)) (hdr ty idx :: sz ++ data ++ tail)
                  = hdr ty idx :: sz ++ data).
   { rewrite firstn_S_cons. f_equal. rewrite app_assoc. apply firstn_len_app. rewrite app_length. reflexivity. }
-  rewrite Hraw.
-  assert (Hlen : S (length sz + length data) = length (hdr ty idx :: sz ++ data)).
-  { cbn [length]. rewrite app_length. reflexivity. }
-  rewrite Hlen. subst mk. destruct Hty as [-> | ->]; reflexivity.
+  rewrite Hraw. rewrite (consumed_lenZ (hdr ty idx)).
+  subst mk. destruct Hty as [-> | ->]; reflexivity.
 Qed.
 
 (* ---------------------------------------------------------------- fixed-size leaves *)
@@ -239,7 +265,7 @@ Lemma parse_fixed : forall ty idx s value tail k depth,
   0 <= ty < 32 -> 0 <= idx < 5 ->
   size_of_header ty idx (value ++ tail) = Some (O, s) -> Z.to_nat s = length value ->
   parse_next (S k) depth (hdr ty idx :: value ++ tail) =
-  (let consumed := S (length value) in
+  (let consumed := lenZ (hdr ty idx :: value) in
    let raw := hdr ty idx :: value in
    if ty =? 0 then POk ENil consumed raw ((idx =? 0))
    else if ty =? 1 then
@@ -277,7 +303,9 @@ Proof.
   rewrite Hlen. rewrite (firstn_len_app _ value tail (length value) eq_refl).
   rewrite leb_len_app. rewrite firstn_S_cons.
   rewrite (firstn_len_app _ value tail (length value) eq_refl).
-  cbn [andb]. rewrite !andb_true_r. reflexivity.
+  assert (Hc : 1 + Z.of_nat 0 + Z.max 0 s = lenZ (hdr ty idx :: value)).
+  { unfold lenZ. cbn [length]. lia. }
+  rewrite Hc. cbn [andb]. rewrite !andb_true_r. reflexivity.
 Qed.
 
 Lemma encode_parse_nil : forall tail k depth,
@@ -297,7 +325,7 @@ Qed.
 
 Lemma encode_parse_uint : forall s v b tail k depth,
   encode (EUInt s v) = Some b ->
-  parse_next (S k) depth (b ++ tail) = POk (EUInt s v) (length b) b true.
+  parse_next (S k) depth (b ++ tail) = POk (EUInt s v) (lenZ b) b true.
 Proof.
   intros s v b tail k depth H. cbn [encode] in H.
   destruct ((0 <=? v) && int_size_ok s && u_range (Z.to_nat s) v) eqn:E; [|discriminate].
@@ -306,21 +334,21 @@ Proof.
     apply some_inv in H; subst b; cbn [app].
   - rewrite (parse_fixed 1 0 1 (be_encode (Z.to_nat 1) v) tail k depth);
       [|lia|lia|reflexivity|rewrite be_encode_length; reflexivity].
-    cbv zeta. rewrite be_decode_encode by exact Hr. cbn [length]. rewrite be_encode_length. reflexivity.
+    cbv zeta. rewrite be_decode_encode by exact Hr. reflexivity.
   - rewrite (parse_fixed 1 1 2 (be_encode (Z.to_nat 2) v) tail k depth);
       [|lia|lia|reflexivity|rewrite be_encode_length; reflexivity].
-    cbv zeta. rewrite be_decode_encode by exact Hr. cbn [length]. rewrite be_encode_length. reflexivity.
+    cbv zeta. rewrite be_decode_encode by exact Hr. reflexivity.
   - rewrite (parse_fixed 1 2 4 (be_encode (Z.to_nat 4) v) tail k depth);
       [|lia|lia|reflexivity|rewrite be_encode_length; reflexivity].
-    cbv zeta. rewrite be_decode_encode by exact Hr. cbn [length]. rewrite be_encode_length. reflexivity.
+    cbv zeta. rewrite be_decode_encode by exact Hr. reflexivity.
   - rewrite (parse_fixed 1 3 8 (be_encode (Z.to_nat 8) v) tail k depth);
       [|lia|lia|reflexivity|rewrite be_encode_length; reflexivity].
-    cbv zeta. rewrite be_decode_encode by exact Hr. cbn [length]. rewrite be_encode_length. reflexivity.
+    cbv zeta. rewrite be_decode_encode by exact Hr. reflexivity.
 Qed.
 
 Lemma encode_parse_sint : forall s v b tail k depth,
   encode (ESInt s v) = Some b ->
-  parse_next (S k) depth (b ++ tail) = POk (ESInt s v) (length b) b true.
+  parse_next (S k) depth (b ++ tail) = POk (ESInt s v) (lenZ b) b true.
 Proof.
   intros s v b tail k depth H. cbn [encode] in H.
   destruct (int_size_ok s && s_range (Z.to_nat s) v) eqn:E; [|discriminate].
@@ -330,24 +358,24 @@ Proof.
   - rewrite (parse_fixed 2 0 1 (bes_encode (Z.to_nat 1) v) tail k depth);
       [|lia|lia|reflexivity|rewrite bes_encode_length; reflexivity].
     cbv zeta. change (Z.to_nat 1) with 1%nat in *. rewrite bes_decode_encode by exact Hr.
-    cbn [length]. rewrite bes_encode_length. reflexivity.
+    reflexivity.
   - rewrite (parse_fixed 2 1 2 (bes_encode (Z.to_nat 2) v) tail k depth);
       [|lia|lia|reflexivity|rewrite bes_encode_length; reflexivity].
     cbv zeta. change (Z.to_nat 2) with 2%nat in *. rewrite bes_decode_encode by exact Hr.
-    cbn [length]. rewrite bes_encode_length. reflexivity.
+    reflexivity.
   - rewrite (parse_fixed 2 2 4 (bes_encode (Z.to_nat 4) v) tail k depth);
       [|lia|lia|reflexivity|rewrite bes_encode_length; reflexivity].
     cbv zeta. change (Z.to_nat 4) with 4%nat in *. rewrite bes_decode_encode by exact Hr.
-    cbn [length]. rewrite bes_encode_length. reflexivity.
+    reflexivity.
   - rewrite (parse_fixed 2 3 8 (bes_encode (Z.to_nat 8) v) tail k depth);
       [|lia|lia|reflexivity|rewrite bes_encode_length; reflexivity].
     cbv zeta. change (Z.to_nat 8) with 8%nat in *. rewrite bes_decode_encode by exact Hr.
-    cbn [length]. rewrite bes_encode_length. reflexivity.
+    reflexivity.
 Qed.
 
 Lemma encode_parse_uuid : forall u b tail k depth,
   encode (EUuid u) = Some b ->
-  parse_next (S k) depth (b ++ tail) = POk (EUuid u) (length b) b true.
+  parse_next (S k) depth (b ++ tail) = POk (EUuid u) (lenZ b) b true.
 Proof.
   intros u b tail k depth H. cbn [encode] in H.
   destruct ((lenZ u =? 2) || (lenZ u =? 4) || (lenZ u =? 16)) eqn:E; [|discriminate].
@@ -376,7 +404,7 @@ Lemma parse_list_encoded : forall l,
   Forall (fun e => forall fuel depth tail b,
             encode e = Some b -> elem_bytes_ok e = true -> (elem_depth e <= depth)%nat ->
             (length (b ++ tail) < fuel)%nat ->
-            parse_next fuel depth (b ++ tail) = POk e (length b) b true) l ->
+            parse_next fuel depth (b ++ tail) = POk e (lenZ b) b true) l ->
   forall pn dep fuel tail d,
     encode_list l = Some d -> list_bytes_ok l = true -> (list_depth l <= dep)%nat ->
     (length (d ++ tail) < pn)%nat -> (length l < fuel)%nat \/ (length d < fuel)%nat ->
@@ -409,10 +437,11 @@ Proof.
     rewrite <- app_assoc.
     rewrite (Hx pn dep (b ++ tail) a eq_refl Hokx ltac:(lia)).
     2:{ rewrite <- app_assoc in Hpn. exact Hpn. }
+    rewrite dropZ_skipn, lenZ_to_nat.
     rewrite (skipn_len_app _ a (b ++ tail) (length a) eq_refl).
-    replace (lenZ (a ++ b) - Z.of_nat (length a)) with (lenZ b) by (rewrite lenZ_app; unfold lenZ; lia).
+    replace (lenZ (a ++ b) - lenZ a) with (lenZ b) by (rewrite lenZ_app; lia).
     rewrite (IH Hr pn dep k' tail b eq_refl Hokr ltac:(lia)).
-    + cbn [andb]. f_equal. rewrite lenZ_app. unfold lenZ. lia.
+    + cbn [andb]. f_equal. rewrite lenZ_app. reflexivity.
     + rewrite !app_length in *. lia.
     + destruct Hfuel as [Hf | Hf]; [left; cbn [length] in Hf; lia|right; rewrite app_length in Hf; lia].
 Qed.
@@ -421,7 +450,7 @@ Lemma parse_container : forall ty l data b tail k dep,
   (ty = 6 \/ ty = 7) -> var_header ty data = Some b ->
   parse_list k dep k (data ++ tail) (lenZ data) = LOk l (lenZ data) true ->
   parse_next (S k) (S dep) (b ++ tail) =
-  POk (if ty =? 6 then ESeq l else EAlt l) (length b) b true.
+  POk (if ty =? 6 then ESeq l else EAlt l) (lenZ b) b true.
 Proof.
   intros ty l data b tail k dep Hty H HL.
   destruct (var_header_shape ty data b tail H) as [idx [sz [Hb [Hidx [Hsz [Hsoh Hcan]]]]]].
@@ -435,10 +464,8 @@ Proof.
   assert (Hraw : firstn (S (length sz + length data)) (hdr ty idx :: sz ++ data ++ tail)
                  = hdr ty idx :: sz ++ data).
   { rewrite firstn_S_cons. f_equal. rewrite app_assoc. apply firstn_len_app. rewrite app_length. reflexivity. }
-  rewrite Hraw.
-  assert (Hlen : S (length sz + length data) = length (hdr ty idx :: sz ++ data)).
-  { cbn [length]. rewrite app_length. reflexivity. }
-  rewrite Hlen. destruct Hty as [-> | ->]; reflexivity.
+  rewrite Hraw. rewrite (consumed_lenZ (hdr ty idx)).
+  destruct Hty as [-> | ->]; reflexivity.
 Qed.
 
 Lemma var_header_length : forall ty data b, var_header ty data = Some b -> (length data < length b)%nat.
@@ -452,7 +479,7 @@ Qed.
 Theorem encode_parse : forall e fuel depth tail b,
   encode e = Some b -> elem_bytes_ok e = true -> (elem_depth e <= depth)%nat ->
   (length (b ++ tail) < fuel)%nat ->
-  parse_next fuel depth (b ++ tail) = POk e (length b) b true.
+  parse_next fuel depth (b ++ tail) = POk e (lenZ b) b true.
 Proof.
   induction e using elem_ind2; intros fuel depth tail b0 He Hok Hdep Hfuel;
     (destruct fuel as [|k]; [lia|]).
@@ -484,7 +511,7 @@ Qed.
 
 Corollary sdp_value_roundtrip : forall max_depth e b,
   elem_ok max_depth e = true -> encode e = Some b ->
-  from_bytes max_depth b = POk e (length b) b true.
+  from_bytes max_depth b = POk e (lenZ b) b true.
 Proof.
   intros max_depth e b Hok He. unfold elem_ok in Hok. rewrite !andb_true_iff in Hok.
   destruct Hok as [[Hb Hd] _]. apply Nat.leb_le in Hd.
@@ -615,7 +642,7 @@ Proof. intros. repeat split; congruence. Qed.
 
 Definition pn_prop (pn : nat) : Prop :=
   forall depth d e c raw, bytes_ok d = true -> parse_next pn depth d = POk e c raw true ->
-    encode e = Some raw /\ c = length raw /\ raw = firstn c d /\ (c <= length d)%nat /\
+    encode e = Some raw /\ c = lenZ raw /\ raw = firstn (Z.to_nat c) d /\ c <= lenZ d /\
     elem_bytes_ok e = true /\ (elem_depth e <= depth)%nat.
 Definition pl_prop (pn : nat) : Prop :=
   forall dep fuel d budget l used, bytes_ok d = true ->
@@ -632,18 +659,48 @@ Proof.
   - cbn [parse_list] in H. destruct (budget <=? 0).
     { inversion H; subst. repeat split; try reflexivity; cbn; lia. }
     destruct (parse_next pn dep d) as [e c raw cn| |] eqn:Ep; try discriminate.
-    destruct (parse_list pn dep k' (skipn c d) (budget - Z.of_nat c)) as [l' used' cn'| |] eqn:El; try discriminate.
+    rewrite dropZ_skipn in H.
+    destruct (parse_list pn dep k' (skipn (Z.to_nat c) d) (budget - c)) as [l' used' cn'| |] eqn:El; try discriminate.
     inversion H; subst l used. clear H.
     match goal with H : cn && cn' = true |- _ => apply andb_true_iff in H as [-> ->] end.
     destruct (Hpn dep d e c raw Hok Ep) as [He [Hc [Hraw [Hcl [Hbe Hde]]]]].
-    destruct (IH (skipn c d) _ l' used' (bytes_ok_skipn _ _ Hok) El) as [Hu [Hul [Hel [Hbl Hdl]]]].
+    destruct (IH (skipn (Z.to_nat c) d) _ l' used' (bytes_ok_skipn _ _ Hok) El) as [Hu [Hul [Hel [Hbl Hdl]]]].
     rewrite skipn_length in Hul.
-    split; [lia|]. split; [rewrite Z2Nat.inj_add by lia; rewrite Nat2Z.id; lia|].
+    assert (Hc0 : 0 <= c) by (rewrite Hc; apply lenZ_nonneg).
+    unfold lenZ in Hcl.
+    split; [lia|]. split; [rewrite Z2Nat.inj_add by lia; lia|].
     split; [|split].
-    + cbn [encode_list]. rewrite He, Hel. rewrite Z2Nat.inj_add by lia. rewrite Nat2Z.id.
+    + cbn [encode_list]. rewrite He, Hel. rewrite Z2Nat.inj_add by lia.
       rewrite firstn_add_skipn. rewrite <- Hraw. reflexivity.
     + cbn [list_bytes_ok]. rewrite Hbe, Hbl. reflexivity.
     + cbn [list_depth]. lia.
+Qed.
+
+Lemma size_of_header_nonneg : forall ty idx d1 hs vs,
+  bytes_ok d1 = true -> 0 <= idx < 8 -> size_of_header ty idx d1 = Some (hs, vs) -> 0 <= vs.
+Proof.
+  intros ty idx d1 hs vs Hok Hidx H.
+  destruct (idx_cases idx Hidx) as [-> | [-> | [-> | [-> | [-> | [-> | [-> | ->]]]]]]].
+  - cbn [size_of_header Z.eqb] in H. apply some_pair_inv in H as [_ <-]. destruct (ty =? 0); lia.
+  - cbn [size_of_header Z.eqb Pos.eqb] in H. apply some_pair_inv in H as [_ <-]. lia.
+  - cbn [size_of_header Z.eqb Pos.eqb] in H. apply some_pair_inv in H as [_ <-]. lia.
+  - cbn [size_of_header Z.eqb Pos.eqb] in H. apply some_pair_inv in H as [_ <-]. lia.
+  - cbn [size_of_header Z.eqb Pos.eqb] in H. apply some_pair_inv in H as [_ <-]. lia.
+  - destruct d1 as [|s rest]; [discriminate|].
+    change (size_of_header ty 5 (s :: rest)) with (Some (1%nat, s)) in H. apply some_pair_inv in H as [_ <-].
+    rewrite bytes_ok_cons in Hok. apply andb_true_iff in Hok as [Hs _]. apply byte_ok_iff in Hs. lia.
+  - destruct d1 as [|b0 [|b1 rest]]; try discriminate.
+    change (size_of_header ty 6 (b0 :: b1 :: rest)) with (Some (2%nat, be_decode [b0; b1])) in H.
+    apply some_pair_inv in H as [_ <-].
+    rewrite !bytes_ok_cons in Hok. rewrite !andb_true_iff in Hok. destruct Hok as [H0 [H1 _]].
+    assert (Hb : bytes_ok [b0; b1] = true) by (cbn; rewrite H0, H1; reflexivity).
+    pose proof (be_decode_range _ Hb). lia.
+  - destruct d1 as [|b0 [|b1 [|b2 [|b3 rest]]]]; try discriminate.
+    change (size_of_header ty 7 (b0 :: b1 :: b2 :: b3 :: rest)) with (Some (4%nat, be_decode [b0; b1; b2; b3])) in H.
+    apply some_pair_inv in H as [_ <-].
+    rewrite !bytes_ok_cons in Hok. rewrite !andb_true_iff in Hok. destruct Hok as [H0 [H1 [H2 [H3 _]]]].
+    assert (Hb : bytes_ok [b0; b1; b2; b3] = true) by (cbn; rewrite H0, H1, H2, H3; reflexivity).
+    pose proof (be_decode_range _ Hb). lia.
 Qed.
 
 Lemma pn_step : forall k, pl_prop k -> pn_prop (S k).
@@ -659,25 +716,28 @@ Proof.
   assert (Hbody : bytes_ok body = true) by (apply bytes_ok_skipn; exact Hd1).
   assert (Hval : bytes_ok (firstn n body) = true) by (apply bytes_ok_firstn; exact Hbody).
   assert (Hraw1 : firstn (S (hs + n)) (b :: d1) = b :: firstn (hs + n) d1) by reflexivity.
+  assert (Hvs0 : 0 <= vs) by (apply (size_of_header_nonneg ty idx d1 hs vs Hd1 Hidx Hsoh)).
+  assert (Hcons : Z.to_nat (1 + Z.of_nat hs + Z.max 0 vs) = S (hs + n)) by (subst n; lia).
   (* common closing argument for elements whose raw form is b :: firstn (hs + n) d1 *)
   assert (Hclose : forall el, (hs <= length d1)%nat -> (n <= length body)%nat ->
             encode el = Some (b :: firstn (hs + n) d1) ->
             elem_bytes_ok el = true -> (elem_depth el <= depth)%nat ->
             encode el = Some (firstn (S (hs + n)) (b :: d1)) /\
-            S (hs + n) = length (firstn (S (hs + n)) (b :: d1)) /\
-            firstn (S (hs + n)) (b :: d1) = firstn (S (hs + n)) (b :: d1) /\
-            (S (hs + n) <= length (b :: d1))%nat /\ elem_bytes_ok el = true /\ (elem_depth el <= depth)%nat).
+            1 + Z.of_nat hs + Z.max 0 vs = lenZ (firstn (S (hs + n)) (b :: d1)) /\
+            firstn (S (hs + n)) (b :: d1) = firstn (Z.to_nat (1 + Z.of_nat hs + Z.max 0 vs)) (b :: d1) /\
+            1 + Z.of_nat hs + Z.max 0 vs <= lenZ (b :: d1) /\ elem_bytes_ok el = true /\ (elem_depth el <= depth)%nat).
   { intros el Hhs Hn He Hbo Hde. unfold body in Hn. rewrite skipn_length in Hn.
-    rewrite Hraw1. repeat split; auto.
-    - cbn [length]. rewrite firstn_length_le by lia. reflexivity.
-    - cbn [length]. lia. }
+    rewrite Hcons. rewrite Hraw1. repeat split; auto.
+    - unfold lenZ. cbn [length]. rewrite firstn_length_le by lia. subst n. lia.
+    - unfold lenZ. cbn [length]. subst n. lia. }
   destruct (ty =? 0) eqn:T0.
   { (* NIL *)
     apply Z.eqb_eq in T0. apply POk_inv in H as [<- [<- [<- Hcn]]].
     apply Z.eqb_eq in Hcn; rename Hcn into I0.
-    rewrite I0, T0 in *. cbn [size_of_header Z.eqb] in Hsoh. apply some_pair_inv in Hsoh as [<- <-].
-    subst n. cbn [Z.to_nat Nat.add]. rewrite <- Hhdr. cbn [firstn length elem_bytes_ok elem_depth encode].
-    repeat split; try reflexivity; lia. }
+    destruct (fixed_header_inv ty idx d1 hs vs ltac:(lia) Hsoh) as [Hhs Hvs].
+    rewrite I0, T0 in Hvs. cbn in Hvs.
+    apply Hclose; [lia|subst n vs; cbn; lia| |reflexivity|cbn; lia].
+    subst n hs vs. cbn [encode Z.to_nat Nat.add firstn]. rewrite <- Hhdr, T0, I0. reflexivity. }
   destruct (ty =? 1) eqn:T1.
   { (* UNSIGNED_INTEGER *)
     apply Z.eqb_eq in T1.
@@ -733,7 +793,7 @@ Proof.
     apply Z.eqb_eq in T4. apply POk_inv in H as [<- [<- [<- Hcn]]].
     apply andb_true_iff in Hcn as [Hw Hcan].
     apply Nat.leb_le in Hw.
-    destruct (var_header_back ty idx d1 hs vs Hty Hidx Hd1 Hsoh Hcan Hw) as [Hvh [Hvs0 Hhs]].
+    destruct (var_header_back ty idx d1 hs vs Hty Hidx Hd1 Hsoh Hcan Hw) as [Hvh [_ Hhs]].
     apply Hclose; [exact Hhs|exact Hw| |exact Hval|cbn; lia].
     cbn [encode]. rewrite <- T4, <- Hhdr. exact Hvh. }
   destruct (ty =? 5) eqn:T5.
@@ -745,12 +805,13 @@ Proof.
     apply Z.eqb_eq in I0.
     destruct (fixed_header_inv ty idx d1 hs vs ltac:(lia) Hsoh) as [Hhs Hvs].
     rewrite I0 in Hvs. replace (ty =? 0) with false in Hvs by (symmetry; apply Z.eqb_neq; lia).
-    cbn in Hvs. subst hs vs. subst n. cbn [Z.to_nat Pos.to_nat Pos.iter_op Nat.add].
-    unfold body in Eb. cbn [skipn] in Eb. subst d1.
-    cbn [firstn length elem_bytes_ok elem_depth encode].
+    cbn in Hvs.
     assert (Hxx : bool_z (x =? 1) = x).
     { rewrite orb_true_iff, !Z.eqb_eq in Hx. destruct Hx as [-> | ->]; reflexivity. }
-    rewrite Hxx. rewrite <- Hhdr, T5, I0. repeat split; try reflexivity; lia. }
+    assert (Hd1x : d1 = x :: body') by (subst hs; exact Eb).
+    apply Hclose; [lia|subst n vs; cbn; lia| |reflexivity|cbn; lia].
+    subst n hs vs. rewrite Hd1x. cbn [encode Z.to_nat Pos.to_nat Pos.iter_op Nat.add firstn].
+    rewrite Hxx. rewrite <- Hhdr, T5, I0. reflexivity. }
   destruct ((ty =? 6) || (ty =? 7)) eqn:T67.
   { (* SEQUENCE / ALTERNATIVE *)
     destruct depth as [|dep]; [discriminate|].
@@ -758,7 +819,7 @@ Proof.
     apply POk_inv in H as [<- [<- [<- Hcn]]].
     rewrite !andb_true_iff in Hcn; destruct Hcn as [[[Hw Hcan] Hcn'] Hu].
     apply Nat.leb_le in Hw. apply Z.eqb_eq in Hu. subst cn used.
-    destruct (var_header_back ty idx d1 hs vs Hty Hidx Hd1 Hsoh Hcan Hw) as [Hvh [Hvs0 Hhs]].
+    destruct (var_header_back ty idx d1 hs vs Hty Hidx Hd1 Hsoh Hcan Hw) as [Hvh [_ Hhs]].
     destruct (Hpl dep k body vs l vs Hbody El) as [_ [_ [Hel [Hbl Hdl]]]].
     fold n in Hel.
     destruct (ty =? 6) eqn:T6.
@@ -775,7 +836,7 @@ Proof.
     apply Z.eqb_eq in T8. apply POk_inv in H as [<- [<- [<- Hcn]]].
     apply andb_true_iff in Hcn as [Hw Hcan].
     apply Nat.leb_le in Hw.
-    destruct (var_header_back ty idx d1 hs vs Hty Hidx Hd1 Hsoh Hcan Hw) as [Hvh [Hvs0 Hhs]].
+    destruct (var_header_back ty idx d1 hs vs Hty Hidx Hd1 Hsoh Hcan Hw) as [Hvh [_ Hhs]].
     apply Hclose; [exact Hhs|exact Hw| |exact Hval|cbn; lia].
     cbn [encode]. rewrite <- T8, <- Hhdr. exact Hvh. }
   discriminate.
@@ -792,13 +853,13 @@ Qed.
    whose (uncached) serialisation is exactly the bytes consumed *)
 Theorem parse_encode : forall fuel depth d e c raw,
   bytes_ok d = true -> parse_next fuel depth d = POk e c raw true ->
-  encode e = Some raw /\ c = length raw /\ raw = firstn c d /\ (c <= length d)%nat /\
+  encode e = Some raw /\ c = lenZ raw /\ raw = firstn (Z.to_nat c) d /\ c <= lenZ d /\
   elem_bytes_ok e = true /\ (elem_depth e <= depth)%nat.
 Proof. intros fuel. exact (pn_all fuel). Qed.
 
 (* with the _bytes cache the re-serialisation is the consumed slice in every case *)
 Theorem parse_cache : forall fuel depth d e c raw cn,
-  parse_next fuel depth d = POk e c raw cn -> raw = firstn c d.
+  parse_next fuel depth d = POk e c raw cn -> raw = firstn (Z.to_nat c) d.
 Proof.
   intros fuel depth d e c raw cn H. destruct fuel as [|k]; [discriminate|].
   destruct d as [|b d1]; [discriminate|].
@@ -807,7 +868,7 @@ Proof.
   repeat match type of H with
          | (if ?c then _ else _) = _ => destruct c
          | match ?c with _ => _ end = _ => destruct c
-         end; try discriminate; inversion H; subst; reflexivity.
+         end; try discriminate; apply POk_inv in H as [_ [<- [<- _]]]; rewrite consumed_nat; reflexivity.
 Qed.
 
 (* fuel: S (length d) is always enough (never PFuel) *)
@@ -834,17 +895,18 @@ Proof.
     intros dep fuel. induction fuel as [|k' IHf]; intros d budget Hl Hf; [lia|].
     cbn [parse_list]. destruct (budget <=? 0); [discriminate|].
     destruct (parse_next (S k) dep d) as [e c raw cn| |] eqn:Ep; try discriminate.
-    + destruct (parse_list (S k) dep k' (skipn c d) (budget - Z.of_nat c)) eqn:El; try discriminate.
+    + rewrite dropZ_skipn.
+      destruct (parse_list (S k) dep k' (skipn (Z.to_nat c) d) (budget - c)) eqn:El; try discriminate.
       exfalso.
-      assert (Hc : (0 < c)%nat).
+      assert (Hc : (0 < Z.to_nat c)%nat).
       { destruct d as [|b d1]; [discriminate|]. rewrite parse_next_unfold in Ep. cbv zeta in Ep.
         destruct (size_of_header _ _ d1) as [[hs vs]|]; [|discriminate].
         repeat match type of Ep with
                | (if ?c then _ else _) = _ => destruct c
                | match ?c with _ => _ end = _ => destruct c
-               end; try discriminate; inversion Ep; lia. }
+               end; try discriminate; apply POk_inv in Ep as [_ [<- _]]; lia. }
       assert (Hd : (0 < length d)%nat) by (destruct d; [discriminate|cbn; lia]).
-      apply (IHf (skipn c d) (budget - Z.of_nat c)); [| |exact El]; rewrite skipn_length; lia.
+      apply (IHf (skipn (Z.to_nat c) d) (budget - c)); [| |exact El]; rewrite skipn_length; lia.
     + exfalso. exact (A dep d Hl Ep).
 Qed.
 
